@@ -22,7 +22,7 @@ impl Check for C05 {
         proptest::strategy::Union::new(vec![ana_strategy(tier, true), ana_strategy(tier, false)]).boxed()
     }
     fn cases(&self, tier: Tier) -> u32 {
-        tier.pick(6000, 120000)
+        tier.pick(18000, 300000)
     }
     fn run(&self, case: &AnaCase, st: &mut Stats) -> Verdict {
         let gc = match transformed(&case.grammar) {
